@@ -20,7 +20,7 @@ import struct
 from . import valcodec
 from .net import Net, BUS
 
-STREAMS = ['net-exhaustive', 'net-random', 'net-corpus']
+STREAMS = ['net-exhaustive', 'net-random', 'net-spy', 'net-corpus']
 THEOREMS = ['link_refinement', 'call_stage_invariant', 'C11_end_to_end', 'C11_returns_what_it_returned']
 TRUSTED_BASE = [
     'harness/net.py: in-memory byte pipes + per-peer DBusMessage._nextSerial swapping (one counter per process)',
@@ -344,7 +344,7 @@ class Run:
         self.expect = []         # expected model output per line (from the implementation)
         self.problems = []       # oracle findings: (key, what, observed, expected)
         self.steps = []          # induced message-level schedule (for distinctness / stats)
-        self.c14 = []            # observations with a catch-all third party
+        self.spy_unicast = 0     # unicast messages that reached the catch-all third party
         self.invoked = 0
 
     # -------------------------------------------------------------- setup
@@ -392,13 +392,14 @@ class Run:
                 self.conns[j].exportObject(obj)
             self.exp_objs.append(obj)
         if self.catch_all:
-            spy = n - 1
+            # a further client holding match rules for every message type and no other constraint: a third party
+            # that must not see, let alone answer, the unicast traffic of the others (bus routing is C14's)
+            self.spy = spy = n - 1
             self.spy_seen = []
             with net.as_peer(spy):
-                self.conns[spy].addMatch(lambda m: self.spy_seen.append(('signal', m.member)))
-                # a rule without constraints, registered at the bus directly
-                self.conns[spy].callRemote('/org/freedesktop/DBus', 'AddMatch', interface='org.freedesktop.DBus',
-                                           destination='org.freedesktop.DBus', signature='s', body=[''])
+                # (the bus of txdbus rejects the empty rule string with ValueError, so: one rule per type)
+                for mt in ('method_call', 'method_return', 'error', 'signal'):
+                    self.conns[spy].addMatch(lambda m: self.spy_seen.append(('signal', m.member)), mtype=mt)
         net.pump()
         del net.log[:]
         # World of the model, taken from the real objects
@@ -621,9 +622,10 @@ class Run:
                         self.expect.append('drop %s' % self.show_msg(m, sender_override=i))
                     else:
                         self.expect.append('fwd-many ' + ' '.join('%s %s' % (x[1], self.show_msg(x[2])) for x in sends))
-                        self.c14.append(('bus-sent-many', [x[1] for x in sends]))
                 else:
                     self.steps.append('C%d' % i)
+                    if self.catch_all and i == self.spy and m.get('t') in ('call', 'ret', 'err'):
+                        self.spy_unicast += 1
                     inv = [x for x in g[1:] if x[0] == 'inv']
                     self.cur_call = m
                     beh = 'deferred'
@@ -836,6 +838,10 @@ class Run:
                 self.calls[e[2]].setdefault('completions', []).append((e[3], e[4]))
 
     def flag(self, key, what, observed=None, expected=None):
+        if self.catch_all and self.spy_unicast:
+            # the failure goes back to the bus handing unicast messages to a rule holder (C14's repair 8a90657)
+            key = 'c14-' + key
+            what = what + ' [a third client holding a catch-all match rule received %d unicast messages]' % self.spy_unicast
         self.problems.append((key, what, observed, expected))
 
     def oracle(self):
@@ -1018,8 +1024,8 @@ def run(ctx):
     else:
         ctx.streams_run.add('net-corpus')
     # ---- exhaustive interleavings of the smallest scenarios
-    n_small = ctx.scale(quick=6, thorough=40)
-    cap = ctx.scale(quick=400, thorough=4000)
+    n_small = ctx.scale(quick=6, thorough=20)
+    cap = ctx.scale(quick=400, thorough=1200)
     all_complete = True
     for _ in range(n_small):
         scn = gen_scenario(rng, small=True)
@@ -1027,11 +1033,12 @@ def run(ctx):
         all_complete = all_complete and complete
         ctx.stat('exhaustive-schedules=%d' % min(1000, 50 * (len(rs) // 50)))
         report(ctx, 'net-exhaustive', rs)
-        if ctx.time_left() < 0:
+        if ctx.elapsed() > (20 if ctx.tier == 'quick' else 300):
+            ctx.note('exhaustive stream stopped early (time)')
             break
     ctx.note('exhaustive interleavings complete for every small scenario: %s' % all_complete)
     # ---- random scenarios, random schedules, arbitrary byte-level read splitting
-    n_rand = ctx.scale(quick=250, thorough=4000)
+    n_rand = ctx.scale(quick=250, thorough=2500)
     batch = []
     for k in range(n_rand):
         scn = gen_scenario(rng)
@@ -1041,6 +1048,12 @@ def run(ctx):
             batch = []
     if batch:
         report(ctx, 'net-random', batch)
+    # ---- the same with a third party holding a catch-all match rule
+    batch = []
+    for k in range(ctx.scale(quick=40, thorough=400)):
+        scn = gen_scenario(rng)
+        batch.append(random_run(scn, (ctx.seed, 'spy', k, rng.random()), catch_all=True))
+    report(ctx, 'net-spy', batch)
 
 
 def replay(ctx, data):
